@@ -20,6 +20,7 @@ import (
 	"github.com/privacybydesign/gabi/big"
 	"github.com/privacybydesign/gabi/gabikeys"
 	"github.com/privacybydesign/gabi/internal/common"
+	"github.com/privacybydesign/gabi/internal/verif/venv"
 	"github.com/privacybydesign/gabi/internal/verif/vkit"
 )
 
@@ -117,10 +118,10 @@ func c05Exponents(pk *gabikeys.PublicKey) []c05E {
 func c05Run(t *testing.T, sub, keyName string, honestBlocks int, qb, tb time.Duration) {
 	r := vkit.Start(t, "C05", sub, qb, tb)
 	defer r.Finish()
-	r.Rule = "honest: message blocks of every length 1..len(R) (values rotate through {0,1,50,2^Lm-1,2^Lm,2^(Lm+200)+c}) signed by SignMessageBlock, verified, randomised 1..4 times; forged (trapdoor, equation holds): exponent catalogue of ~35 boundary primes/composites x 2 message blocks; alterations: every component +-1/0/swap, message count, other key, KeyshareP; non-trivial = distinct (block,e) or (block,alteration); oracle: reference CL predicate"
+	r.Rule = "honest signing + randomisation with each random draw forced to min/max/short (<=1 deviation); honest: message blocks of every length 1..len(R) (values rotate through {0,1,50,2^Lm-1,2^Lm,2^(Lm+200)+c}) signed by SignMessageBlock, verified, randomised 1..4 times; forged (trapdoor, equation holds): exponent catalogue of ~35 boundary primes/composites x 2 message blocks; alterations: every component +-1/0/swap, message count, other key, KeyshareP; non-trivial = distinct (block,e) or (block,alteration); oracle: reference CL predicate"
 	k := vfK(keyName)
 	pk := k.Pk
-	vfInstallEnv(t, "C05/"+sub, r.Seed)
+	env := vfInstallEnv(t, "C05/"+sub, r.Seed)
 	al := vfValueAlphabet(pk.Params.Lm)
 	other := vfK("toyB")
 	if keyName == "toyB" || pk.N.BitLen() != other.Pk.N.BitLen() {
@@ -142,6 +143,36 @@ func c05Run(t *testing.T, sub, keyName string, honestBlocks int, qb, tb time.Dur
 			o = append(o, vfShort(m))
 		}
 		return o
+	}
+	// (a') honest signing and randomisation with every random draw forced to an extreme answer (all
+	// zero, all ones, short): the interval of e and the size of v are exact contracts, not statistical
+	if _, mine := r.Next(); mine && (keyName != "k2048" || vkit.Thorough()) {
+		ms := blocks[len(blocks)/2]
+		env.Explore(1, []venv.Answer{venv.Min, venv.Max, venv.Short}, func(devs []venv.Deviation) bool {
+			r.Eval()
+			r.Nontrivial(fmt.Sprintf("env|%v", devs))
+			var sig, rnd *CLSignature
+			var err, err2 error
+			if pan, msg := vkit.Guard(func() {
+				sig, err = SignMessageBlock(k.Sk, pk, ms)
+				if err == nil {
+					rnd, err2 = sig.Randomize(pk)
+				}
+			}); pan || err != nil || err2 != nil {
+				r.Violate("C05|honest-signing-failed|env="+vfDevClass(devs), fmt.Sprintf("%v: %s %v %v", devs, msg, err, err2), fmt.Sprint(devs))
+				return true
+			}
+			ok, okr, okref := sig.Verify(pk, ms), rnd.Verify(pk, ms), c05RefVerify(pk, sig, ms)
+			r.Outcome(fmt.Sprintf("env=%s:verifies=%v:randomised verifies=%v:reference=%v", vfDevClass(devs), ok, okr, okref))
+			if !ok || !okref {
+				r.Violate("C05|honest-signature-rejected|env="+vfDevClass(devs), fmt.Sprintf("signature made under %v: Verify=%v reference predicate=%v, e=%s", devs, ok, okref, vfShort(sig.E)), fmt.Sprint(devs))
+			}
+			if !okr {
+				r.Violate("C05|randomised-signature-rejected|env="+vfDevClass(devs), fmt.Sprintf("%v", devs), fmt.Sprint(devs))
+			}
+			return !r.Expired()
+		})
+		env.Reset()
 	}
 	// (a) honest
 	for bi, ms := range blocks {
